@@ -56,6 +56,7 @@ type node struct {
 	retries   int  // raft commit_retries
 	defFolder bool // data_folder left unset: derived from the base directory
 	trailing  int  // raft trailing_logs
+	used      bool // was started at some point in this case
 	gater     *fakes.Gater
 	folder    string
 	f         *fakes.ClusterFixture
@@ -100,6 +101,7 @@ func raftCfg(folder string, defFolder bool, init []peer.ID, maxAppend, retries, 
 // start creates the Cluster (real raft consensus, harness tracker/monitor/IPFS)
 // without waiting for readiness.
 func (n *node) start(init []peer.ID, staging bool, repin bool, all []*node) error {
+	n.used = true
 	n.gater = fakes.NewGater()
 	h, herr := libp2p.New(context.Background(), libp2p.Identity(gen.PeerKeys[n.idx]), libp2p.ListenAddrStrings("/ip4/127.0.0.1/tcp/0"), libp2p.ConnectionGater(n.gater))
 	if herr != nil {
@@ -226,6 +228,10 @@ func TestMembership(t *testing.T) {
 		// snapshot (every 4 entries here), so a new or lagging peer is brought
 		// up by snapshot installation; 64: by log replay
 		trailing := rapid.SampledFrom([]int{1, 64, 64}).Draw(t, "trailingLogs")
+		startWithPartition := rapid.IntRange(0, 2).Draw(t, "startWithPartition") == 0
+		if startWithPartition {
+			n0, trailing, bulk, maxAppend = 3, 64, 0, 0
+		}
 		nodes := make([]*node, 4)
 		for i := range nodes {
 			nodes[i] = &node{idx: i, maxAppend: maxAppend, retries: retries, folder: filepath.Join(dir, fmt.Sprintf("p%d", i))}
@@ -368,10 +374,10 @@ func TestMembership(t *testing.T) {
 		}
 		fresh := func() int {
 			for i := 0; i < 4; i++ {
-				if !members[i] && !nodes[i].up {
-					if _, err := os.Stat(nodes[i].folder); os.IsNotExist(err) {
-						return i
-					}
+				// never started in this case (it may hold older backups of Raft
+				// data from an earlier life: that is part of the generated set-up)
+				if !members[i] && !nodes[i].up && !nodes[i].used {
+					return i
 				}
 			}
 			return -1
@@ -487,6 +493,144 @@ func TestMembership(t *testing.T) {
 			settle("after removing a peer")
 
 		}
+		partitionedAdd := func(t *rapid.T) {
+			// the leader is cut off and, before it notices, asked to add a
+			// peer: that fails; after the partition heals everything must
+			// work as before - in particular the ex-leader can later be
+			// removed and stops itself
+			if len(members) < 3 || len(members) >= 4 {
+				t.Skip("needs three members and a spare peer")
+			}
+			if trailing == 1 {
+				// hashicorp/raft v1.1.1 cannot bring back a follower whose log
+				// ends in an entry that was never committed (the failed add)
+				// once everything before it has been compacted on that
+				// follower: it rejects every AppendEntries ("previous log not
+				// found") and is fed snapshots for ever, so it never sees later
+				// entries - its own removal included. A limitation of the
+				// library under this setting, not of ipfs-cluster (DESIGN 9.3).
+				t.Skip("trailing_logs=1")
+			}
+			x := fresh()
+			if x < 0 {
+				t.Skip("no fresh peer")
+			}
+			L := -1
+			for _, i := range memberList() {
+				if ld, err := nodes[i].cons.Leader(ctx); err == nil && pidx(ld) == i {
+					L = i
+				}
+			}
+			if L < 0 {
+				t.Skip("no leader")
+			}
+			if err := nodes[x].start(nil, true, repin, nodes); err != nil {
+				fail("VERIF-INFRA start of new peer: %v", err)
+			}
+			script = append(script, fmt.Sprintf("partition(%d) ; peerAdd(%d at %d) ; heal", L, x, L))
+			classes["partitioned-leader-scenario"] = true
+			for _, i := range memberList() {
+				if i != L {
+					nodes[L].gater.Block(nodes[i].f.Host.ID(), true)
+					nodes[i].gater.Block(nodes[L].f.Host.ID(), true)
+					nodes[L].f.Host.Network().ClosePeer(nodes[i].f.Host.ID())
+					nodes[i].f.Host.Network().ClosePeer(nodes[L].f.Host.ID())
+				}
+			}
+			actx, acancel := context.WithTimeout(ctx, 20*time.Second)
+			_, aerr := nodes[L].f.C.PeerAdd(actx, gen.Peers[x])
+			acancel()
+			for _, i := range memberList() {
+				if i != L {
+					nodes[L].gater.Block(nodes[i].f.Host.ID(), false)
+					nodes[i].gater.Block(nodes[L].f.Host.ID(), false)
+				}
+			}
+			if aerr == nil {
+				// it went through before the leader lost its lease
+				members[x] = true
+				if !nodes[x].waitReady(60 * time.Second) {
+					fail("the added peer %d did not report ready within 60 s", x)
+				}
+			} else {
+				// the call failed; whether the configuration change it may
+				// have written before losing leadership survives is Raft's
+				// business: take what the members agree on once healed
+				added := false
+				deadline := time.Now().Add(40 * time.Second)
+				for time.Now().Before(deadline) {
+					views := map[string]bool{}
+					for _, i := range memberList() {
+						ps, err := nodes[i].peers()
+						if err != nil {
+							ps = "err"
+						}
+						views[ps] = true
+					}
+					if len(views) == 1 {
+						for v := range views {
+							added = strings.Contains(","+v+",", fmt.Sprintf(",%d,", x))
+						}
+						if !views["err"] {
+							break
+						}
+					}
+					time.Sleep(200 * time.Millisecond)
+				}
+				if added {
+					members[x] = true
+					if !nodes[x].waitReady(60 * time.Second) {
+						fail("peer %d was added after all but did not report ready within 60 s", x)
+					}
+				} else {
+					nodes[x].stop()
+				}
+				classes["failed-add-at-partitioned-leader"] = true
+			}
+			settle("after a partition of the leader healed")
+			// now remove the ex-leader through another member
+			var F int
+			for _, i := range memberList() {
+				if i != L {
+					F = i
+				}
+			}
+			script = append(script, fmt.Sprintf("peerRemove(%d at %d)", L, F))
+			setMetrics()
+			if err := nodes[F].f.C.PeerRemove(ctx, gen.Peers[L]); err != nil {
+				leg.Inconclusive(fmt.Sprintf("PeerRemove returned an error: %v", err))
+				t.Skip("not acknowledged")
+			}
+			delete(members, L)
+			select {
+			case <-nodes[L].f.C.Done():
+			case <-time.After(60 * time.Second):
+				fail("peer %d, removed after a partition in which an add at it had failed, did not shut itself down within 60 s", L)
+			}
+			nodes[L].up = false
+			nodes[L].f.Host.Close()
+			if _, err := os.Stat(filepath.Join(nodes[L].folder, "raft")); err == nil {
+				fail("removed peer %d still has its Raft data folder", L)
+			}
+			if repin {
+				time.Sleep(100 * time.Millisecond)
+				if ps, err := nodes[F].f.C.Pins(ctx); err == nil {
+					for _, p := range ps {
+						if model[p.Cid.String()] != nil {
+							model[p.Cid.String()] = p
+						}
+					}
+				}
+			}
+			classes["nontrivial"] = true
+			settle("after removing the ex-leader")
+
+		}
+		if startWithPartition {
+			// one case in three opens with the partitioned-leader scenario (it
+			// needs exactly three members and is otherwise rarely reached)
+			partitionedAdd(t)
+		}
 		t.Repeat(map[string]func(*rapid.T){
 			"pin": func(t *rapid.T) {
 				at := pick(t, "at")
@@ -600,138 +744,8 @@ func TestMembership(t *testing.T) {
 				}
 				settle("after removing the crashed leader")
 			},
-			"addAtPartitionedLeader": func(t *rapid.T) {
-				// the leader is cut off and, before it notices, asked to add a
-				// peer: that fails; after the partition heals everything must
-				// work as before - in particular the ex-leader can later be
-				// removed and stops itself
-				if len(members) < 3 || len(members) >= 4 {
-					t.Skip("needs three members and a spare peer")
-				}
-				if trailing == 1 {
-					// hashicorp/raft v1.1.1 cannot bring back a follower whose log
-					// ends in an entry that was never committed (the failed add)
-					// once everything before it has been compacted on that
-					// follower: it rejects every AppendEntries ("previous log not
-					// found") and is fed snapshots for ever, so it never sees later
-					// entries - its own removal included. A limitation of the
-					// library under this setting, not of ipfs-cluster (DESIGN 9.3).
-					t.Skip("trailing_logs=1")
-				}
-				x := fresh()
-				if x < 0 {
-					t.Skip("no fresh peer")
-				}
-				L := -1
-				for _, i := range memberList() {
-					if ld, err := nodes[i].cons.Leader(ctx); err == nil && pidx(ld) == i {
-						L = i
-					}
-				}
-				if L < 0 {
-					t.Skip("no leader")
-				}
-				if err := nodes[x].start(nil, true, repin, nodes); err != nil {
-					fail("VERIF-INFRA start of new peer: %v", err)
-				}
-				script = append(script, fmt.Sprintf("partition(%d) ; peerAdd(%d at %d) ; heal", L, x, L))
-				for _, i := range memberList() {
-					if i != L {
-						nodes[L].gater.Block(nodes[i].f.Host.ID(), true)
-						nodes[i].gater.Block(nodes[L].f.Host.ID(), true)
-						nodes[L].f.Host.Network().ClosePeer(nodes[i].f.Host.ID())
-						nodes[i].f.Host.Network().ClosePeer(nodes[L].f.Host.ID())
-					}
-				}
-				actx, acancel := context.WithTimeout(ctx, 20*time.Second)
-				_, aerr := nodes[L].f.C.PeerAdd(actx, gen.Peers[x])
-				acancel()
-				for _, i := range memberList() {
-					if i != L {
-						nodes[L].gater.Block(nodes[i].f.Host.ID(), false)
-						nodes[i].gater.Block(nodes[L].f.Host.ID(), false)
-					}
-				}
-				if aerr == nil {
-					// it went through before the leader lost its lease
-					members[x] = true
-					if !nodes[x].waitReady(60 * time.Second) {
-						fail("the added peer %d did not report ready within 60 s", x)
-					}
-				} else {
-					// the call failed; whether the configuration change it may
-					// have written before losing leadership survives is Raft's
-					// business: take what the members agree on once healed
-					added := false
-					deadline := time.Now().Add(40 * time.Second)
-					for time.Now().Before(deadline) {
-						views := map[string]bool{}
-						for _, i := range memberList() {
-							ps, err := nodes[i].peers()
-							if err != nil {
-								ps = "err"
-							}
-							views[ps] = true
-						}
-						if len(views) == 1 {
-							for v := range views {
-								added = strings.Contains(","+v+",", fmt.Sprintf(",%d,", x))
-							}
-							if !views["err"] {
-								break
-							}
-						}
-						time.Sleep(200 * time.Millisecond)
-					}
-					if added {
-						members[x] = true
-						if !nodes[x].waitReady(60 * time.Second) {
-							fail("peer %d was added after all but did not report ready within 60 s", x)
-						}
-					} else {
-						nodes[x].stop()
-					}
-					classes["failed-add-at-partitioned-leader"] = true
-				}
-				settle("after a partition of the leader healed")
-				// now remove the ex-leader through another member
-				var F int
-				for _, i := range memberList() {
-					if i != L {
-						F = i
-					}
-				}
-				script = append(script, fmt.Sprintf("peerRemove(%d at %d)", L, F))
-				setMetrics()
-				if err := nodes[F].f.C.PeerRemove(ctx, gen.Peers[L]); err != nil {
-					leg.Inconclusive(fmt.Sprintf("PeerRemove returned an error: %v", err))
-					t.Skip("not acknowledged")
-				}
-				delete(members, L)
-				select {
-				case <-nodes[L].f.C.Done():
-				case <-time.After(60 * time.Second):
-					fail("peer %d, removed after a partition in which an add at it had failed, did not shut itself down within 60 s", L)
-				}
-				nodes[L].up = false
-				nodes[L].f.Host.Close()
-				if _, err := os.Stat(filepath.Join(nodes[L].folder, "raft")); err == nil {
-					fail("removed peer %d still has its Raft data folder", L)
-				}
-				if repin {
-					time.Sleep(100 * time.Millisecond)
-					if ps, err := nodes[F].f.C.Pins(ctx); err == nil {
-						for _, p := range ps {
-							if model[p.Cid.String()] != nil {
-								model[p.Cid.String()] = p
-							}
-						}
-					}
-				}
-				classes["nontrivial"] = true
-				settle("after removing the ex-leader")
-			},
-			"peerRemove": func(t *rapid.T) { removePeer(t, pick(t, "at"), pick(t, "who")) },
+			"addAtPartitionedLeader": func(t *rapid.T) { partitionedAdd(t) },
+			"peerRemove":             func(t *rapid.T) { removePeer(t, pick(t, "at"), pick(t, "who")) },
 			"removeHolderOfMixedPins": func(t *rapid.T) {
 				// the departing peer holds a pin that cannot be re-homed (as many
 				// copies asked for as there are members) next to pins that can:
